@@ -860,3 +860,7 @@ mod tests {
         assert_eq!(merged.redaction_profile, "safe-summary");
     }
 }
+
+#[cfg(kani)]
+#[path = "/verif/harness/anda_cognitive_nexus/governance_rows.rs"]
+mod verif_kani;
